@@ -88,6 +88,10 @@ func TestVerifC01Slow(t *testing.T) {
 			jobs = append(jobs, job{strat, "upload", chunked, 16, 100 * time.Millisecond}, job{strat, "upload", chunked, 8, 300 * time.Millisecond})
 		}
 		jobs = append(jobs, job{strat, "upload", true, 24, 100 * time.Millisecond}, job{strat, "keep-alive", false, 15, 100 * time.Millisecond})
+		// an upload of 48 MiB (far more than the socket buffers hold) to a backend that does not
+		// read for 1.5 s after the request head - longer than backend_read: the proxy may give
+		// up (502), but what the backend has received is a prefix of what the client sent
+		jobs = append(jobs, job{strat, "backend-pauses", strat == "ip_hash", 0, 1500 * time.Millisecond})
 	}
 	var mu sync.Mutex
 	var evals int64
@@ -137,6 +141,92 @@ func TestVerifC01Slow(t *testing.T) {
 						}
 					}
 				}
+			case "backend-pauses":
+				const total = 48 << 20
+				framing := map[bool]string{true: "chunked", false: "Content-Length"}[j.chunked]
+				desc += fmt.Sprintf(": a %s upload of 48 MiB to a backend that does not read for %v after the request head", framing, j.gap)
+				l, err := net.Listen("tcp", "127.0.0.1:0")
+				if err != nil {
+					t.Errorf("listen: %v", err)
+					return
+				}
+				defer l.Close()
+				verdict := make(chan string, 1)
+				go func() {
+					c, err := l.Accept()
+					if err != nil {
+						verdict <- "accept: " + err.Error()
+						return
+					}
+					defer c.Close()
+					br := bufio.NewReaderSize(c, 4096)
+					req, err := http.ReadRequest(br)
+					if err != nil {
+						verdict <- "request head: " + err.Error()
+						return
+					}
+					v := c20bpSink(req.Body, total, j.gap)
+					fmt.Fprintf(c, "HTTP/1.1 201 Created\r\nContent-Type: text/plain\r\nContent-Length: 6\r\nConnection: close\r\n\r\nstored")
+					verdict <- v
+				}()
+				h.lb.RemoveBackend("b0")
+				if err := h.lb.AddBackend(config.BackendConfig{Name: "pausing", Address: "http://" + l.Addr().String(), Weight: 1}); err != nil {
+					t.Errorf("add: %v", err)
+					return
+				}
+				c, err := net.DialTimeout("tcp", h.addr, 5*time.Second)
+				if err != nil {
+					t.Errorf("dial: %v", err)
+					return
+				}
+				c.SetDeadline(time.Now().Add(40 * time.Second))
+				if j.chunked {
+					fmt.Fprintf(c, "POST /upload HTTP/1.1\r\nHost: x.test\r\nContent-Type: application/octet-stream\r\nTransfer-Encoding: chunked\r\nConnection: close\r\n\r\n")
+				} else {
+					fmt.Fprintf(c, "POST /upload HTTP/1.1\r\nHost: x.test\r\nContent-Type: application/octet-stream\r\nContent-Length: %d\r\nConnection: close\r\n\r\n", total)
+				}
+				go func() {
+					buf := make([]byte, 64<<10)
+					for off := int64(0); off < total; off += int64(len(buf)) {
+						c20bpFill(buf, off)
+						if j.chunked {
+							if _, err := fmt.Fprintf(c, "%x\r\n", len(buf)); err != nil {
+								return
+							}
+						}
+						if _, err := c.Write(buf); err != nil {
+							return
+						}
+						if j.chunked {
+							fmt.Fprintf(c, "\r\n")
+						}
+					}
+					if j.chunked {
+						fmt.Fprintf(c, "0\r\n\r\n")
+					}
+				}()
+				status := 0
+				if resp, err := http.ReadResponse(bufio.NewReader(c), nil); err == nil {
+					status = resp.StatusCode
+					io.Copy(io.Discard, resp.Body)
+					resp.Body.Close()
+				}
+				c.Close()
+				v := ""
+				select {
+				case v = <-verdict:
+				case <-time.After(30 * time.Second):
+					v = "the backend side never finished"
+				}
+				// the whole upload (answered 201), or a prefix of it (the proxy gave up: SHORT ...)
+				switch {
+				case strings.HasPrefix(v, "WRONG"):
+					key, what = "C01/slow/upload/body-differs-at-the-backend", fmt.Sprintf("%s: the client was answered %d; what the backend received is not what the client sent: %s", desc, status, v)
+				case strings.HasPrefix(v, "ALL") && status != 201:
+					key, what = "C01/slow/upload/answer-differs", fmt.Sprintf("%s: the backend received everything and answered 201, the client got %d", desc, status)
+				case !strings.HasPrefix(v, "ALL") && !strings.HasPrefix(v, "SHORT"):
+					key, what = "C01/slow/upload/no-answer", fmt.Sprintf("%s: %s (client answered %d)", desc, v, status)
+				}
 			case "keep-alive":
 				desc += fmt.Sprintf(": %d GETs, one every %v, over one kept-alive connection, then a POST with a body", j.pieces, j.gap)
 				e := &exch{addr: h.addr}
@@ -174,6 +264,6 @@ func TestVerifC01Slow(t *testing.T) {
 	wg.Wait()
 	r.AddScenario(vres.Scenario{Name: "uploads-and-connections-that-outlast-backend-read", Engine: "W", Evaluations: evals, Distinct: int64(outs.N()), Outcomes: outs.N(),
 		Rule:       "one evaluation = a real instance (backend_dial = backend_read = 1 s, client-facing timeouts 30 s) and either one upload arriving in 4 KiB pieces at a steady pace for longer than backend_read, or short exchanges every 100 ms over one kept-alive connection for longer than backend_read followed by a POST; the backend must receive the body byte for byte and the client the backend's answer; distinct = (kind, framing, pieces, gap, ok) classes",
-		Bound:      "3 strategies x {Content-Length, chunked} x {16 pieces every 100 ms, 8 every 300 ms} + chunked 24 pieces every 100 ms + 15 GETs every 100 ms then a POST",
+		Bound:      "3 strategies x {Content-Length, chunked} x {16 pieces every 100 ms, 8 every 300 ms} + chunked 24 pieces every 100 ms + 15 GETs every 100 ms then a POST + a 48 MiB upload to a backend that does not read for 1.5 s (what it receives must be the upload or a prefix of it)",
 		Exhaustive: true, Extra: map[string]interface{}{"wall_s": time.Since(start).Seconds()}})
 }
